@@ -212,6 +212,13 @@ def keyTok : Key → Tok
   | .s k => .s k
   | .i k => .i k
 
+/-- the window of a slice header, each cell rendered by `g` -/
+def fpSeq (g : Word → List Tok) (m : Mem) : Word → List Tok
+  | .slice arr off len _ => match cellsOf m arr with
+    | some cells => [.o "seq"] ++ ((window cells off len).map g).flatten ++ [.c]
+    | none => [.bad]
+  | _ => [.bad]
+
 /-- the fingerprint: deep content of `w` read through the heap (slices show their
 window only; maps in key order; a set shows its buckets in id order, each in
 slice order).  Capacities, addresses and owners are NOT part of it. -/
@@ -227,14 +234,12 @@ def fp : Nat → Mem → Word → List Tok
     | .num a => match floatOf m a with
       | some v => [.o "n", .i v, .c]
       | none => [.bad]
-    | .slice arr off len _ => match cellsOf m arr with
-      | some cells => [.o "seq"] ++ ((window cells off len).map (fp f m)).flatten ++ [.c]
-      | none => [.bad]
+    | .slice .. => fpSeq (fp f m) m w
     | .map a => match kvsOf m a with
       | some kvs => [.o "map"] ++ (kvs.map fun kv => keyTok kv.1 :: fp f m kv.2).flatten ++ [.c]
       | none => [.bad]
     | .set a => match kvsOf m a with
-      | some kvs => [.o "set"] ++ (kvs.map fun kv => keyTok kv.1 :: fp f m kv.2).flatten ++ [.c]
+      | some kvs => [.o "set"] ++ (kvs.map fun kv => keyTok kv.1 :: fpSeq (fp f m) m kv.2).flatten ++ [.c]
       | none => [.bad]
     | .marks a => match marksOf m a with
       | some ms => [.o "marks"] ++ ms.map .s ++ [.c]
